@@ -61,12 +61,12 @@ func Int(name string) *big.Int { return val(name) }
 // IntRange returns an arbitrary integer in [lo, hi].
 func IntRange(name string, lo, hi *big.Int) *big.Int { return val(name) }
 
-func Uint64(name string) uint64                  { return val(name).Uint64() }
+func Uint64(name string) uint64                    { return val(name).Uint64() }
 func Uint64Below(name string, bound uint64) uint64 { return val(name).Uint64() }
-func Int64(name string) int64                    { return val(name).Int64() }
-func Int64Range(name string, lo, hi int64) int64 { return val(name).Int64() }
-func Byte(name string) byte                      { return byte(val(name).Uint64()) }
-func Bool(name string) bool                      { return val(name).Sign() != 0 }
+func Int64(name string) int64                      { return val(name).Int64() }
+func Int64Range(name string, lo, hi int64) int64   { return val(name).Int64() }
+func Byte(name string) byte                        { return byte(val(name).Uint64()) }
+func Bool(name string) bool                        { return val(name).Sign() != 0 }
 
 // Bytes returns n arbitrary bytes.
 func Bytes(name string, n int) []byte {
